@@ -55,6 +55,22 @@ static grec_t* g_running[VS_MAX_THREADS];
 static uint64_t g_seq;
 static swlog_t g_sw[VS_MAX_THREADS];
 static int g_kernel_block_expected;
+#define GEV_MAX (1 << 17)
+static gev_t g_events[GEV_MAX];
+static int g_nev;
+static inline void gev_add(int type, int thread, int who) {
+  if (g_nev < GEV_MAX) {
+    g_events[g_nev].type = (uint8_t)type;
+    g_events[g_nev].thread = (int8_t)thread;
+    g_events[g_nev].who = (int16_t)who;
+    g_nev++;
+  }
+}
+const gev_t* g_evlog(int* n) {
+  *n = g_nev;
+  return g_events;
+}
+static inline int who_of(grec_t* r) { return r->idx >= 0 ? r->idx : (r->is_thread_fiber ? -1 : -3); }
 
 static grec_t* g_find(fiber_t* f, int create) {
   uintptr_t h = ((uintptr_t)f >> 4) * 0x9E3779B97F4A7C15ull;
@@ -82,11 +98,19 @@ static const char* gs_name(int s) {
   return "UNKNOWN";
 }
 
+static int g_next_spawn = -1;
+void g_expect_spawn(int idx) { g_next_spawn = idx; }
+
 void verif_fiber_created(struct fiber* f) {
   if (!vs_active()) return;
   vs_rt_enter();
   grec_t* r = g_find(f, 1);
   if (r->state != GS_NONE) vs_violation("engine_limit", "fiber address reused %p", (void*)f);
+  if (g_next_spawn >= 0 && !f->context.is_thread) {
+    r->idx = g_next_spawn;
+    g_by_idx[r->idx] = r;
+    g_next_spawn = -1;
+  }
   if (f->context.is_thread) {
     r->state = GS_RUNNING;
     r->on_thread = vs_self();
@@ -132,6 +156,7 @@ void verif_scheduled(void* scheduler, struct fiber* f) {
     vs_label_add("early_wake", 1);
     r->early_wake_seen = 1;
   }
+  gev_add(1, vs_self(), who_of(r));
   vs_progress();
   vs_rt_exit();
 }
@@ -169,6 +194,7 @@ void verif_switch(struct fiber_manager* m, struct fiber* oldf, struct fiber* new
   g_seq++;
   swlog_t* L = &g_sw[T];
   if (L->n < 8192) L->who[L->n++] = is_maint ? -2 : (n->idx >= 0 ? n->idx : (n->is_thread_fiber ? -1 : -3));
+  gev_add(0, T, is_maint ? -2 : who_of(n));
   if (oldf->state == FIBER_STATE_READY) vs_label_add("yield_switch", 1);
   vs_label_add("fiber_switches", 1);
   (void)g_maint_marker;
@@ -204,6 +230,9 @@ void g_bind(int idx) {
 void g_done(int idx) { g_done_flag[idx] = 1; }
 int g_is_done(int idx) { return g_done_flag[idx]; }
 void g_set_op(int idx, int opno) { g_opno[idx] = opno; }
+int g_fiber_saved(int idx) { return g_by_idx[idx] && g_by_idx[idx]->state == GS_SAVED; }
+int g_fiber_destroyed(int idx) { return g_by_idx[idx] && g_by_idx[idx]->state == GS_DESTROYED; }
+uint64_t g_ticks(void) { return vs_ticks_delivered(); }
 void* g_fiber_ptr(int idx) { return g_by_idx[idx] ? g_by_idx[idx]->f : 0; }
 int g_cur_idx(void) {
   grec_t* r = g_running[vs_self()];
